@@ -41,6 +41,7 @@ def main():
     tier = 'quick'
     checks = [sid]
     srcroot, suffix = '/tmp/seed', ''
+    use_wt = False
     args = sys.argv[2:]
     while args:
         a = args.pop(0)
@@ -52,6 +53,10 @@ def main():
             srcroot = args.pop(0)
         elif a == '--suffix':
             suffix = args.pop(0)
+        elif a == '--worktree':
+            # run the check against a scratch worktree that carries the change (VERIF_REPO) instead of
+            # patching /repo: for use while other checks are reading /repo; evidence goes to a scratch dir
+            use_wt = True
     src = f'{srcroot}/{sid}'
     notes = json.load(open(f'{src}/notes.json'))
     patch = f'{src}/patch.diff'
@@ -99,22 +104,40 @@ def main():
 
     # run the checks against /repo with the change applied
     results = {}
-    rc, out = run(['git', '-C', '/repo', 'status', '--porcelain'])
-    if out.strip():
-        print('refusing: /repo has local changes')
-        sys.exit(2)
-    rc, out = run(['git', '-C', '/repo', 'apply', patch])
-    try:
-        if rc == 0:
-            for cid in checks:
-                t0 = time.time()
-                rc2, out2 = run(['/verif/bin/gosmt', 'check', cid, '--tier', tier], cwd='/verif', timeout=7200)
-                lines = [l for l in out2.splitlines() if l.startswith('VIOLATION') or l.startswith('INCONCLUSIVE') or 'violation [' in l or 'native replay' in l or l.strip().startswith('at ')]
-                results[cid] = {'tier': tier, 'exit': rc2, 'wall_s': round(time.time() - t0, 1), 'lines': lines[:16]}
-                meta['ran'].append(f'git -C /repo apply patch.diff; /verif/bin/gosmt check {cid} --tier {tier}; git -C /repo checkout -- .')
-    finally:
-        run(['git', '-C', '/repo', 'checkout', '--', '.'])
-        run(['git', '-C', '/repo', 'clean', '-fdq'])
+    if use_wt:
+        wt2 = tempfile.mkdtemp(prefix='seedchk-')
+        os.rmdir(wt2)
+        run(['git', '-C', '/repo', 'worktree', 'add', '--detach', wt2, 'HEAD'])
+        try:
+            rc, out = run(['git', 'apply', patch], cwd=wt2)
+            if rc == 0:
+                env2 = dict(ENV, VERIF_REPO=wt2, VERIF_EVIDENCE_DIR='/tmp/seed_evidence')
+                for cid in checks:
+                    t0 = time.time()
+                    p2 = subprocess.run(['/verif/bin/gosmt', 'check', cid, '--tier', tier], cwd='/verif', env=env2, capture_output=True, text=True, timeout=7200)
+                    out2 = p2.stdout + p2.stderr
+                    lines = [l for l in out2.splitlines() if l.startswith('VIOLATION') or l.startswith('INCONCLUSIVE') or 'violation [' in l or 'native replay' in l or l.strip().startswith('at ')]
+                    results[cid] = {'tier': tier, 'exit': p2.returncode, 'wall_s': round(time.time() - t0, 1), 'lines': lines[:16]}
+                    meta['ran'].append(f'scratch worktree of /repo with patch.diff applied; VERIF_REPO=<worktree> /verif/bin/gosmt check {cid} --tier {tier}')
+        finally:
+            run(['git', '-C', '/repo', 'worktree', 'remove', '--force', wt2])
+    else:
+        rc, out = run(['git', '-C', '/repo', 'status', '--porcelain'])
+        if out.strip():
+            print('refusing: /repo has local changes')
+            sys.exit(2)
+        rc, out = run(['git', '-C', '/repo', 'apply', patch])
+        try:
+            if rc == 0:
+                for cid in checks:
+                    t0 = time.time()
+                    rc2, out2 = run(['/verif/bin/gosmt', 'check', cid, '--tier', tier], cwd='/verif', timeout=7200)
+                    lines = [l for l in out2.splitlines() if l.startswith('VIOLATION') or l.startswith('INCONCLUSIVE') or 'violation [' in l or 'native replay' in l or l.strip().startswith('at ')]
+                    results[cid] = {'tier': tier, 'exit': rc2, 'wall_s': round(time.time() - t0, 1), 'lines': lines[:16]}
+                    meta['ran'].append(f'git -C /repo apply patch.diff; /verif/bin/gosmt check {cid} --tier {tier}; git -C /repo checkout -- .')
+        finally:
+            run(['git', '-C', '/repo', 'checkout', '--', '.'])
+            run(['git', '-C', '/repo', 'clean', '-fdq'])
     meta['check_results'] = results
     meta['caught'] = any(r['exit'] == 1 for r in results.values())
     dst = f'/verif/seeded/{sid}{suffix}'
